@@ -259,11 +259,19 @@ static Outcome run_rw(const Case &c, int mode) {
     if (want >= 0) x.cls.insert(want == 0 ? "descriptor-0" : want < 3 ? "descriptor-1-2" : want >= 1024 ? "descriptor>=1024" : "descriptor-chosen");
   }
   K().get(g.fd)->conn = 2;
+  bool blocking = false;
+  for (auto &op : c)
+    if (op.k == "blocking") blocking = true;
+  if (blocking && mode == 0) {  // read sub only: the descriptor stays in blocking mode; poll is then the only thing that says when recv() is safe
+    K().get(g.fd)->blocking = true;
+    x.cls.insert("descriptor-in-blocking-mode");
+  }
   int kinds = 0;
   size_t nin = 0;
   for (auto &op : c) {
     if (op.k == "in" && mode != 1 && nin++ < 400) {
       InItem it = mk_in(op);
+      if (blocking && mode == 0 && it.t == IN_SPUR) continue;  // spurious readiness would make any blocking reader sleep: not generated here
       if (it.t == IN_DATA) g.stream += it.data;
       K().push_in(g.fd, it);
       kinds |= 1 << it.t;
@@ -361,6 +369,8 @@ static Outcome run_rw(const Case &c, int mode) {
     free(r->buf);
   }
   if (K().sigpipe_would_fire) x.fail("sigpipe", "send() without MSG_NOSIGNAL on a broken pipe");
+  if (K().would_block_calls && !x.failed)
+    x.fail("recv-would-block", "recv() was called " + std::to_string(K().would_block_calls) + " time(s) on a blocking-mode descriptor when nothing had arrived and poll had not reported it readable: the whole event loop would sleep in that call");
   int nk = __builtin_popcount((unsigned)kinds);
   o.nontrivial = answers >= 3 && nk >= 2;
   for (auto &sx : x.cls) o.cls(sx);
@@ -411,6 +421,7 @@ static rc::Gen<Case> gen_rw(int mode, int tier) {
     // ending: EOF / hard error / silence (reads); hard error / accept-everything (writes)
     int end = *rc::gen::weightedElement<int>({{4, 0}, {3, 1}, {2, 2}, {3, 3}});
     if (mode == 2 && *range<int>(0, 3) == 0) c.push_back(Op("out", {OUT_ERR, 1, 0, *range<int>(0, 9)}));
+    if (mode == 0 && *range<int>(0, 5) == 0) c.push_back(Op("blocking"));
     if (mode != 1) {
       if (end == 3 && produced < total) c.push_back(Op("in", {IN_DATA, *range<int>(0, 1) * 1000, 0, 0, *rc::gen::arbitrary<int>(), total - produced + *range<int>(0, 10)}));
       if (end == 0 || end == 3) c.push_back(Op("in", {IN_EOF, *rc::gen::elementOf(std::vector<int64_t>{0, 0, 1000, 2500}), 0, *range<int>(0, 1), 0, 0}));
